@@ -21,18 +21,21 @@ def body(c, prop="C12", kinds='{"val", "del"}', nvks=(1,), invariants=("ReadStab
         consts = dict(base, NVK=str(nvk))
         if q:
             consts.update(MaxTs="3", MaxId="6")
+            if len(kinds) > 20:
+                # retention is decided per key: with all four entry kinds the quick model check uses one key
+                consts.update(Keys="{1}", MaxTs="4", MaxId="7")
         L.model_check(c, "picks NVK=%d" % nvk, consts, invariants, timeout=1800)
     # 2. state injection, L0->Lbase and Li->Li+1 (MinL0L0 irrelevant for these families)
     allcases = []
     for nvk in nvks:
         g = dict(base, Keys="{1, 2, 3}", NVK=str(nvk), MaxTs="5", MaxId="9", Wide="0", L0Hold="0", MtMax="2")
-        cases = L.generate(c, "walk NVK=%d" % nvk, g, c.seed + nvk, simulate=(2500 if q else 30000), depth=32, workers=4)
+        cases = L.generate(c, "walk NVK=%d" % nvk, g, c.seed + nvk, simulate=(1500 if q else 30000), depth=32, workers=4)
         cases = [x for x in cases if x["fam"] != "L0ToL0"]
         allcases += cases
     # 3. L0->L0 with the code's constant (4 tables): shaped walk that lets level 0 fill up
     for nvk in nvks:
         g = dict(base, Keys="{1, 2}", NVK=str(nvk), MaxTs="9", MaxId="16", MinL0L0="4", Wide="0", L0Hold="99", MtMax="1")
-        cases = L.generate(c, "L0L0 NVK=%d" % nvk, g, c.seed + 10 + nvk, simulate=(1500 if q else 20000), depth=60, workers=4)
+        cases = L.generate(c, "L0L0 NVK=%d" % nvk, g, c.seed + 10 + nvk, simulate=(1000 if q else 20000), depth=60, workers=4)
         cases = [x for x in cases if x["fam"] == "L0ToL0"]
         rest = [x for x in cases if any(t["big"] or not t["aged"] for t in x["pre"]["L0"])]
         c.cov.setdefault("l0l0_cases_with_excluded_tables", 0)
@@ -40,7 +43,7 @@ def body(c, prop="C12", kinds='{"val", "del"}', nvks=(1,), invariants=("ReadStab
         allcases += cases
     allcases = L.dedupe(allcases)
     total = len(allcases)
-    nmem, ndisk = (900, 150) if q else (12000, 1500)
+    nmem, ndisk = (600, 90) if q else (12000, 1500)
     # always keep L0->L0 cases that leave tables behind (the situation that needs the rest of L0)
     def later_overlap(x):
         """L0->Lbase where the oldest-first overlapping prefix stops early although a LATER table
@@ -74,6 +77,11 @@ def body(c, prop="C12", kinds='{"val", "del"}', nvks=(1,), invariants=("ReadStab
     L.replay(c, prop, mem, "state injection (in-memory tables)", inmem=True)
     if disk:
         L.replay(c, prop, disk, "state injection (on disk, MANIFEST checked)", inmem=False)
+    # 4. the two-step installation against a concurrent level-by-level read
+    if prop == "C12":
+        L.model_check_install(c, q)
+        inst = [x for x in others if x["fam"] != "L0ToL0" and len(x["posts"][0]["reads"]) <= 3][:(16 if q else 300)]
+        L.replay_install(c, prop, inst, "read interleaved with replaceTables/deleteTables (all positions)")
     c.add_cases(len(mem) + len(disk), set(L.shape_key(x) for x in mem + disk), traces=len(mem) + len(disk))
     c.cov["distinct_cases_generated"] = total
     c.cov["rule"] = ("a case = one compaction transition of LSM.tla (pre-layout, family, allowed post-layouts, predicted reads); "
